@@ -288,9 +288,90 @@ func c08GenVirtual(r *rand.Rand) c08Input {
 	return in
 }
 
+// c08Tricky: numeric- and bool-looking texts whose reading depends on exactly which strconv
+// function is used (Atoi: base 10, optional sign, nothing else; ParseFloat: decimal / exponent /
+// hex-with-p, no blanks; ParseBool: the twelve literal spellings), each with the integers a LAXER
+// parser would read them as (octal / hex / binary prefixes, underscores, trimming, exponents).
+var c08Tricky = []struct {
+	S  string
+	Ns []int64
+}{
+	{"010", []int64{10, 8}}, {"0x10", []int64{16, 10, 0}}, {"0X1f", []int64{31, 0}}, {"0b11", []int64{3, 11}},
+	{"0o17", []int64{15, 17}}, {"1_0", []int64{10, 1}}, {"1_000", []int64{1000, 1}}, {"+5", []int64{5}}, {"-5", []int64{-5, 5}},
+	{" 5", []int64{5}}, {"5 ", []int64{5}}, {"1e3", []int64{1000, 1}}, {"1E2", []int64{100, 1}}, {"0.50", []int64{0, 1}},
+	{"1.0", []int64{1}}, {"5.", []int64{5}}, {".5", []int64{0, 5}}, {"007", []int64{7}}, {"-0", []int64{0}}, {"+0", []int64{0}},
+	{"0x1p4", []int64{16, 1}}, {"TRUE", []int64{1}}, {"t", []int64{1}}, {"T", []int64{1}}, {"True", []int64{1}}, {"tRue", []int64{1}},
+	{"F", []int64{0}}, {"false", []int64{0}}, {"1", []int64{1}}, {"0", []int64{0}}, {"yes", []int64{1}}, {"on", []int64{1}},
+	{"", []int64{0}}, {"९", []int64{9}}, {"9223372036854775807", []int64{9223372036854775807}}, {"9223372036854775808", []int64{9223372036854775807}},
+	{"-9223372036854775808", []int64{-9223372036854775808}}, {"00", []int64{0}}, {"0x", []int64{0}}, {"1e", []int64{1}},
+	{" 7", []int64{7}}, {"7 ", []int64{7}}, {"\t7", []int64{7}}, {"7\n", []int64{7}}, {" 1.5", []int64{1, 2}}, {"1.5 ", []int64{1, 2}},
+	{" true", []int64{1}}, {"true ", []int64{1}}, {"1,5", []int64{1, 15}}, {"1.5e0", []int64{1}}, {"0x8", []int64{8}}, {"08", []int64{8}},
+}
+
+// c08GenTricky: such a text as FIELD value against a numeric / bool / text rule value, or as RULE
+// value against a numeric field value, under every Datatype and comparison / membership operator.
+func c08GenTricky(r *rand.Rand) c08Input {
+	in := c08Input{Seed: int64(1 + r.Intn(1_000_000)), TraceID: fmt.Sprintf("trace-%d", r.Intn(1000)), Root: -1}
+	t := c08Tricky[r.Intn(len(c08Tricky))]
+	n := t.Ns[r.Intn(len(t.Ns))]
+	if n > -1<<62 && n < 1<<62 && r.Intn(4) == 0 {
+		n += int64(r.Intn(3)) - 1
+	}
+	var num rvVal
+	switch r.Intn(5) {
+	case 0, 1:
+		num = rvVal{K: "int", I: n}
+	case 2:
+		num = rvVal{K: "f", F: float64(n)}
+		if r.Intn(3) == 0 {
+			num.F += 0.5
+		}
+	case 3:
+		num = rvVal{K: "s", S: strconv.FormatInt(n, 10)}
+	default:
+		num = rvVal{K: "b", B: n != 0}
+	}
+	text := rvVal{K: "s", S: t.S}
+	sv, cv := text, num
+	switch r.Intn(5) {
+	case 0, 1: // the text sits in the rule
+		sv, cv = num, text
+	case 2: // text against another tricky text
+		cv = rvVal{K: "s", S: c08Tricky[r.Intn(len(c08Tricky))].S}
+	}
+	if sv.K == "b" && r.Intn(2) == 0 {
+		sv = rvVal{K: "int", I: n}
+	}
+	c := c08Cond{Field: "a",
+		Op:  []string{"=", "!=", ">", "<", ">=", "<=", "=", "!=", ">=", "<=", "in", "not-in"}[r.Intn(12)],
+		Dt:  []string{"int", "int", "int", "float", "float", "bool", "string", ""}[r.Intn(8)],
+		Val: cv}
+	if c.Op == "in" || c.Op == "not-in" {
+		if c.Dt == "bool" {
+			c.Dt = "int"
+		}
+		if r.Intn(3) != 0 || cv.K == "b" {
+			c.Val = rvVal{K: "list", L: []rvVal{{K: "s", S: "zz"}, cv}}
+		}
+	}
+	in.Spans = [][]c08Field{{{K: "a", V: sv}}}
+	if r.Intn(3) == 0 {
+		in.Spans = append(in.Spans, []c08Field{{K: "b", V: c08PickScalar(r, false)}})
+	}
+	ru := c08Rule{Name: "tricky", Rate: 1, Drop: r.Intn(2) == 0, Scope: []string{"", "span"}[r.Intn(2)], Conds: []c08Cond{c}}
+	if r.Intn(6) == 0 { // has-root-span reads its Value through ParseBool as well
+		ru.Conds = append(ru.Conds, c08Cond{Op: "has-root-span", Val: text})
+	}
+	in.Rules = []c08Rule{ru}
+	return in
+}
+
 func c08GenFocused(r *rand.Rand) c08Input {
 	if r.Intn(8) == 0 {
 		return c08GenVirtual(r)
+	}
+	if r.Intn(2) == 0 {
+		return c08GenTricky(r)
 	}
 	in := c08Input{Seed: int64(1 + r.Intn(1_000_000)), TraceID: fmt.Sprintf("trace-%d", r.Intn(1000)), Root: -1}
 	sv := c08PickScalar(r, false)
